@@ -1578,7 +1578,7 @@ class MatlabWrapper(CheckMixin, FormatMixin):
                                                   prefix='  ')
 
                 # Getter
-                if "_get_" in method_name:
+                if method_name.startswith(class_name + "_get_"):
                     return_body = self.wrap_collector_property_return(
                         extra, instantiated_class=collector_func[1])
 
@@ -1595,7 +1595,7 @@ class MatlabWrapper(CheckMixin, FormatMixin):
                     body += getter
 
                 # Setter
-                if "_set_" in method_name:
+                if method_name.startswith(class_name + "_set_"):
                     is_ptr_type = self.can_be_pointer(extra.ctype) and \
                         not self.is_enum(extra.ctype, collector_func[1])
                     return_body = '  obj->{0} = {1}{0};'.format(
